@@ -20,6 +20,7 @@ PROBLEMS: dict = {}
 TABS: dict = {}
 SOLVERS: dict = {}
 SWEEPERS: dict = {}
+EXTRA: dict = {}
 LOG: list = []
 
 
@@ -204,6 +205,21 @@ def do(op: dict) -> str:
         PROBLEMS[op.get("id", "_shipped")] = p
         return (f"states={rows(S)} actions={rows(A)} events={rows(E)} sidx={','.join(str(int(x)) for x in sidx)} nxtvec={rows(nv)} "
                 f"nxt={','.join(str(int(x)) for x in ni)} rew={fvals(rw)}")
+    if o == "probtab":
+        import importlib
+        mod, cls = op["target"].rsplit(".", 1)
+        p = getattr(importlib.import_module(mod), cls)(**op.get("kwargs", {}))
+        S, A, E = p.state_space, p.action_space, p.random_event_space
+        f = jax.jit(jax.vmap(jax.vmap(jax.vmap(lambda s, a, e: jnp.asarray(p.random_event_probability(s, a, e), dtype=jnp.float64).reshape(()),
+                                               in_axes=(None, None, 0)), in_axes=(None, 0, None)), in_axes=(0, None, None)))
+        T = np.asarray(f(S, A, E), dtype=np.float64)
+        init = np.asarray(jax.vmap(lambda s: jnp.asarray(p.initial_value(s), dtype=jnp.float64).reshape(()))(S), dtype=np.float64)
+        EXTRA["last"] = {"probs": T.tolist() if op.get("full") else None, "rowsums": T.sum(axis=2).tolist(), "init": init.tolist(),
+                         "states": np.asarray(S).tolist(), "actions": np.asarray(A).tolist(), "events": np.asarray(E).tolist()}
+        rs = T.sum(axis=2)
+        w = np.unravel_index(np.argmax(np.abs(rs - 1)), rs.shape)
+        return (f"S={T.shape[0]} A={T.shape[1]} E={T.shape[2]} finite={bool(np.isfinite(T).all())} pmin={float(T.min())!r} "
+                f"rowsum_min={float(rs.min())!r} rowsum_max={float(rs.max())!r} worst_state={int(w[0])} worst_action={int(w[1])} dtype={T.dtype}")
     if o == "semisweep":
         p = PROBLEMS[op["id"]]
         key = (op["id"], op["maxbs"], "semi", op.get("shuffle", 0), op.get("random_seed", 0))
@@ -274,7 +290,11 @@ def main():
     out = []
     for op in ops:
         try:
-            out.append({"resp": do(op)})
+            EXTRA.pop("last", None)
+            r = {"resp": do(op)}
+            if "last" in EXTRA:
+                r["data"] = EXTRA.pop("last")
+            out.append(r)
         except Exception as e:  # noqa: BLE001
             out.append({"resp": f"impl-exception={err_class(e)}", "trace": traceback.format_exc()[-3000:]})
     open(sys.argv[2], "w").write(json.dumps(out))
